@@ -145,7 +145,8 @@ fn check(plan: &Plan, o: &Obs) -> Option<String> {
                 }
             }
         }
-        let n = lines.iter().filter(|l| **l == format!("done {k}")).count();
+        // (substring, not whole line: a job's line may land in the middle of a line the shell is printing)
+        let n = out.matches(&format!("done {k}\n")).count();
         if n != 1 {
             return Some(format!("`done {k}` printed {n} times"));
         }
@@ -157,13 +158,13 @@ fn check(plan: &Plan, o: &Obs) -> Option<String> {
     }
     // happens-before: everything a wait covers is printed before the line that follows the wait
     for (w, jobs) in &plan.waits {
-        let Some(wpos) = lines.iter().position(|l| l.starts_with(&format!("@W{w} "))) else {
+        let Some(wpos) = out.find(&format!("@W{w} ")) else {
             return Some(format!("marker @W{w} missing"));
         };
         for k in jobs {
-            match lines.iter().position(|l| *l == format!("done {k}")) {
+            match out.find(&format!("done {k}\n")) {
                 Some(p) if p < wpos => {}
-                Some(p) => return Some(format!("wait #{w} returned (line {wpos}) before job {k} had finished (its output is at line {p})")),
+                Some(p) => return Some(format!("wait #{w} returned (byte {wpos} of stdout) before job {k} had finished (its output is at byte {p})")),
                 None => return Some(format!("job {k} printed nothing")),
             }
         }
